@@ -113,7 +113,8 @@ type Resolved struct {
 }
 
 // ResolveBytes writes data into dir, parses it with the real reader and resolves
-// it with the real resolver against a fresh client of the case.
+// it with the real resolver against a fresh client of the case. If only the
+// resolution fails the parsed manifest is still returned (Graph nil) with the error.
 func (c *Case) ResolveBytes(dir string, data []byte) (*Resolved, error) {
 	p, err := c.PutManifest(dir, data)
 	if err != nil {
@@ -133,7 +134,8 @@ func (c *Case) ResolveBytes(dir string, data []byte) (*Resolved, error) {
 	}
 	g, err := guidedremediation.VerifResolve(context.Background(), cl, m, options.ResolutionOptions{})
 	if err != nil {
-		return nil, fmt.Errorf("resolve: %w", err)
+		// the manifest parsed but does not resolve: Graph is nil
+		return &Resolved{Manifest: m}, fmt.Errorf("resolve: %w", err)
 	}
 	return &Resolved{Manifest: m, Graph: g}, nil
 }
@@ -143,6 +145,9 @@ func (c *Case) ResolveBytes(dir string, data []byte) (*Resolved, error) {
 // node of that name. n is the number of candidate nodes considered (0 = the
 // package is not in the graph; >1 = ambiguous, version is "").
 func VersionOf(g *resolve.Graph, fullName string) (version string, n int) {
+	if g == nil {
+		return "", 0
+	}
 	direct := map[string]bool{}
 	for _, e := range g.Edges {
 		if e.From == 0 && g.Nodes[e.To].Version.Name == fullName {
